@@ -289,7 +289,11 @@ def annotate_closure(text, k, params, spec):
     return text[:a] + head + '{ ' + text[j:q].rstrip() + ' }' + text[q:]
 
 
-RULES = [('R5', rule_R5_strip), ('R2', rule_R2_unchecked), ('R34', rule_R34_asserts), ('R6', rule_R6_minmax)]
+def rule_R7_sqrt(text):
+    return re.subn(r'\(\s*(\w+)\s+as\s+f32\s*\)\s*\.sqrt\(\)\s*as\s+(usize|u64)\s*\+\s*1', r'verif_sqrt_limit_\2(\1)', text)
+
+
+RULES = [('R7', rule_R7_sqrt), ('R5', rule_R5_strip), ('R2', rule_R2_unchecked), ('R34', rule_R34_asserts), ('R6', rule_R6_minmax)]
 
 
 # --------------------------------------------------------------------------------------------
